@@ -129,3 +129,62 @@ func (s *Scn) MatchLedger(im *Image) []int {
 func IsTxNotAvailable(err error) bool {
 	return err != nil && (strings.Contains(err.Error(), "transaction not available") || strings.Contains(err.Error(), "no snapshots available") || strings.Contains(err.Error(), "non-contiguous"))
 }
+
+// AppState is what an application can observe of a database: a logical dump
+// of user-visible schema and rows plus the header-resident pragmas.
+type AppState struct {
+	Dump    string
+	Pragmas string
+	Extra   string // litestream bookkeeping tables, integrity, journal mode
+}
+
+// ObserveApp reads the application-visible state through the writer connection.
+func (s *Scn) ObserveApp() (*AppState, error) {
+	if s.w == nil {
+		return nil, fmt.Errorf("no application connection")
+	}
+	st := &AppState{}
+	d, err := LogicalDumpDB(s.w)
+	if err != nil {
+		return nil, err
+	}
+	st.Dump = d
+	var parts []string
+	for _, p := range []string{"user_version", "application_id", "auto_vacuum", "page_size", "journal_mode"} {
+		v, err := queryStringsConn(s.w, "PRAGMA "+p)
+		if err != nil {
+			return nil, err
+		}
+		parts = append(parts, p+"="+strings.Join(v, ","))
+	}
+	st.Pragmas = strings.Join(parts, " ")
+	var ex []string
+	if v, err := queryStringsConn(s.w, "SELECT count(*) FROM _litestream_lock"); err == nil {
+		ex = append(ex, "lock_rows="+strings.Join(v, ","))
+	}
+	if v, err := queryStringsConn(s.w, "SELECT id FROM _litestream_seq ORDER BY id"); err == nil {
+		ex = append(ex, "seq_ids="+strings.Join(v, ","))
+	}
+	if !s.InTx {
+		v, err := queryStringsConn(s.w, "PRAGMA integrity_check")
+		if err != nil {
+			return nil, err
+		}
+		ex = append(ex, "integrity="+strings.Join(v, ";"))
+	}
+	st.Extra = strings.Join(ex, " ")
+	return st, nil
+}
+
+// IsAppOp reports whether an operation belongs to the application projection of a history.
+func IsAppOp(op string) bool {
+	name := op
+	if i := strings.IndexByte(op, ':'); i >= 0 {
+		name = op[:i]
+	}
+	switch name {
+	case "W1", "W3", "WN", "U", "D", "DDL", "UV", "VAC", "IVAC", "TXB", "TXC", "TXR", "RDB", "RDE", "CK", "CC", "CO":
+		return true
+	}
+	return false
+}
